@@ -1,9 +1,9 @@
 SPECIFICATION Spec
 CONSTANTS
     Configs <- MCThoroughAll
-    MaxAge = 5
+    MaxAge = 4
     MaxDt = 2
-    MaxBDt = 2
+    MaxBDt = 1
     LeaveOKStartsDuration = TRUE
     BatchGaps = {0, 1}
     MaxBatch = 2
